@@ -6,6 +6,7 @@ import TSSVerif.Driver.Box
 import TSSVerif.Driver.BoxConc
 import TSSVerif.Driver.Adapter
 import TSSVerif.Driver.Translate
+import TSSVerif.Driver.Orch
 /-!
 Line-protocol driver: one operation per input line, one answer per output line. Imports `Model/`
 and `Driver/` only (core Lean), so it links as a native executable; the definitions it runs are the
@@ -17,11 +18,16 @@ structure DState where
   rbc : Nat → Option RbcD := fun _ => none
   box : Option BoxD := none
   boxc : Option BoxCD := none
+  orch : OrchD := {}
 
 def step (st : DState) (line : String) : DState × String :=
   let toks := (line.splitOn " ").filter (· ≠ "")
   match toks with
   | "wire" :: rest => (st, (wireOp rest).getD "bad-op")
+  | "orch" :: rest =>
+    match orchOp st.orch rest with
+    | some (d, o) => ({ st with orch := d }, o)
+    | none => (st, "bad-op")
   | "tr" :: rest => (st, (trOp rest).getD "bad-op")
   | "adp" :: rest => (st, (adpOp rest).getD "bad-op")
   | "boxc" :: rest =>
